@@ -365,13 +365,13 @@ pub fn gen_panic_variant(rng: &mut Rng, variant: u64) -> Program {
     };
     // work accepted behind the panicking operation (it never runs); its future is waited for once the panic is over:
     // the wait must end (panic or cancellation), not hang
-    let follow: Option<HandleId> = if !matches!(variant % 10, 3 | 4 | 8) && g.rng.permille(600) { Some(g.handle()) } else { None };
+    let follow: Option<HandleId> = if !matches!(variant % 11, 3 | 4 | 8 | 10) && g.rng.permille(600) { Some(g.handle()) } else { None };
     let push_follow = |g: &mut Gen, t0: &mut Vec<Op>| {
         if let Some(h) = follow {
             t0.push({ let __k = OpKind::FutureDesync { o: p_obj, body: vec![], h }; g.op(__k) });
         }
     };
-    match variant % 10 {
+    match variant % 11 {
         0 => {
             t0.push({ let __k = OpKind::Desync { o: p_obj, body: y(&mut g) }; g.op(__k) });
             push_follow(&mut g, &mut t0);
@@ -432,6 +432,25 @@ pub fn gen_panic_variant(rng: &mut Rng, variant: u64) -> Program {
             t0.push({ let __k = OpKind::FutureSync { o: p_obj, body, h }; g.op(__k) });
             t0.push({ let __k = OpKind::Await { h }; g.op(__k) });
         }
+        10 => {
+            // the queue is being run by a caller inside sync() that is parked on the slot of the future_sync: the panic surfaces
+            // in the awaiting task while somebody else is inside the queue
+            add_blockers(&mut g, &mut phase0_threads, &mut t0);
+            let h = g.handle();
+            let mut body = vec![];
+            if g.rng.permille(500) {
+                let gate = g.gate();
+                body.push(Step::AwaitGate(gate));
+            }
+            body.extend(y(&mut g));
+            t0.push({ let __k = OpKind::FutureSync { o: p_obj, body, h }; g.op(__k) });
+            let mut t1 = vec![];
+            t1.push({ let __k = OpKind::Yield(g.rng.range(0, 2) as u8); g.op(__k) });
+            t1.push({ let __k = OpKind::Sync { o: p_obj, body: vec![] }; g.op(__k) });
+            phase0_threads.push(t1);
+            t0.push({ let __k = OpKind::Yield(g.rng.range(1, 4) as u8); g.op(__k) });
+            t0.push({ let __k = OpKind::Await { h }; g.op(__k) });
+        }
         _ => {
             // awaited future_desync with a free pool: panic on the pool thread, the awaiting task sees cancellation
             let h = g.handle();
@@ -441,10 +460,27 @@ pub fn gen_panic_variant(rng: &mut Rng, variant: u64) -> Program {
             t0.push({ let __k = OpKind::Await { h }; g.op(__k) });
         }
     }
+    // the thread on which the panic surfaces goes on using the object at once (it has caught the panic: for it the panic is over)
+    if matches!(variant % 11, 3 | 4 | 8 | 10) && g.rng.permille(600) {
+        let n = g.rng.range(1, 2);
+        for _ in 0..n {
+            let o = p_obj;
+            match g.rng.below(4) {
+                0 => t0.push({ let __k = OpKind::Desync { o, body: vec![] }; g.op(__k) }),
+                1 => t0.push({ let __k = OpKind::Sync { o, body: vec![] }; g.op(__k) }),
+                2 => t0.push({ let __k = OpKind::TrySync { o, body: vec![] }; g.op(__k) }),
+                _ => {
+                    let h = g.handle();
+                    t0.push({ let __k = OpKind::FutureDesync { o, body: vec![], h }; g.op(__k) });
+                    t0.push({ let __k = OpKind::Detach { h }; g.op(__k) });
+                }
+            }
+        }
+    }
     phase0_threads.insert(0, t0);
     // healthy objects are in use while the panic happens -- only where no pool thread can die with work of
     // theirs still waiting for a thread (the property speaks about programs issued after the unwinding)
-    if matches!(variant % 10, 3 | 4) && g.rng.permille(600) {
+    if matches!(variant % 11, 3 | 4) && g.rng.permille(600) {
         let n = g.rng.range(1, 3) as usize;
         let t = g.thread(&HEALTHY, n, false);
         phase0_threads.push(t);
@@ -519,7 +555,7 @@ pub fn gen_panic_variant(rng: &mut Rng, variant: u64) -> Program {
 }
 
 pub fn gen_panic(rng: &mut Rng) -> Program {
-    let v = rng.below(10);
+    let v = rng.below(11);
     gen_panic_variant(rng, v)
 }
 
